@@ -7,11 +7,13 @@ META = {
     "level": "other",
     "text": "Deductive (unbounded): the guard of match.main on the loaded chain of substitutions is verified from its AST for chains of any length: a variant is skipped with an "
             "infinite code length if and only if its chain contains an unrecoverable (non-dict, i.e. nan) entry; a chain of recoverable substitutions of any length is never "
-            "skipped there. Bounded stand-in (not counted as proved): simplifier.convert_params against an independently composed map with an mpmath Jacobian and J^-T F J^-1 for "
+            "skipped there. The layout of the Hessian file is verified on both sides: each of the three writer loops of test_all_Fisher.convert_params stores H[r, c] (r <= c < "
+            "nparam) at position r max_param - r (r - 1) / 2 + (c - r) and touches nothing after the rows written; the reader in simplifier.convert_params rebuilds the symmetric matrix "
+            "from exactly those positions and truncates it to the parameters handed in; a lemma composes the two (reader(writer(H)) = H). Bounded stand-in (not counted as proved): simplifier.convert_params against an independently composed map with an mpmath Jacobian and J^-T F J^-1 for "
             "chains up to length 3 over 18 substitution forms and permutations; match.main end to end on synthetic libraries (closed-form fits, analytic Hessians, 1-3 ranks): "
             "index, parameters, likelihood (re-evaluated when parameters snap), code length, finiteness for recoverable chains, non-finite for nan chains.",
     "note": "A chain entry is an opaque object with the predicate isinstance(., dict). The conversion, snapping and code-length part of the loop body is bounded only. A-sympy.",
-    "technique": "contract-based deductive verification of the guard region (AST->VC->SMT) + bounded stand-in with independent Jacobian oracle",
+    "technique": "contract-based deductive verification of the guard region and of the Hessian file layout, writer and reader (AST->VC->SMT) + bounded stand-in with independent Jacobian oracle",
 }
 CHECKER = "./bin/check C05"
 
@@ -21,8 +23,16 @@ def check(run):
                                         note="region: the guard `if` of the loop body only")
     if D.canary(run, "fitting/match.py", "main", c_match.guard_contract) is False:
         raise RuntimeError("canary verified: engine vacuous on the match guard")
+    lfailed = D.hessian_layout(run)
     found, B = _wrap.run_bounded(run, "checks.C05_bounded")
+    rr = run.harness("rt_rows.py", {"mode": "triu", "nmax": 9}, timeout=300)
+    if rr["failures"]:
+        from vlib.common import CheckerError
+        raise CheckerError("external contract of np.triu_indices fails at run time: %s" % rr["failures"][:1])
+    run.add_bounded("external contract of np.triu_indices(n): (r, c) sits at position r n - r (r - 1) / 2 + c - r", "numpy.triu_indices",
+                    "n <= 9, every (r, c)", rr["cases"], rr["distinct"], 0)
     _wrap.report_unproved(run, failed, found, "match.main guard")
+    _wrap.report_unproved(run, lfailed, found or bool(run.violations), "Hessian layout (writer in test_all_Fisher.convert_params / reader in simplifier.convert_params)")
     run.assume("A-sympy", "chain entries opaque (dict or not)")
     run.trust("pyvc", "z3 5.1.0")
     return run.finish("other", META["text"], CHECKER)
